@@ -651,27 +651,13 @@ func (a Int) M__round__(digits Object) (Object, error) {
 		if b >= 0 {
 			return a, nil
 		}
-		// Promote to BigInt if 10**-b > 2**63 or a == IntMin
-		if b <= -19 || a == IntMin {
-			return (*BigInt)(big.NewInt(int64(a))).M__round__(digits)
+		// Round with arbitrary precision (word-sized arithmetic
+		// overflowed when rounding up near the ends of the range)
+		r, err := (*BigInt)(big.NewInt(int64(a))).M__round__(digits)
+		if rb, ok := r.(*BigInt); ok && err == nil {
+			return rb.MaybeInt(), nil
 		}
-		negative := false
-		r := a
-		if r < 0 {
-			r = -r
-			negative = true
-		}
-		scale := Int(math.Pow(10, float64(-b)))
-		digits := r % scale
-		r -= digits
-		// Round
-		if 2*digits >= scale {
-			r += scale
-		}
-		if negative {
-			r = -r
-		}
-		return r, nil
+		return r, err
 	}
 	return cantConvert(digits, "int")
 }
